@@ -4,7 +4,14 @@
 // Two real KVExecutor instances (each with its own Badger directory) are fed the same generated
 // blocks while everything else - SetFinal timing, mempool traffic, repeated InitChain, restarts,
 // re-execution, whether a refused block is offered at all - is chosen independently per instance.
-// An independent reference model (model.go) predicts every returned root.
+// The deciding oracle is relational (model.go, judge): the root first seen for a canonical history
+// (the ordered transactions of all accepted first executions) must be returned whenever that history
+// is seen again - on the same instance, on the other one, after SetFinal / InjectTx / GetTxs / a
+// repeated InitChain / a reopen, after a refused block, after a re-execution. Any deterministic root
+// function passes. An independent reference model of today's executor gives a second opinion that is
+// counted, never judged. A second phase (conc.go) drives one instance from several goroutines and
+// compares it with a sequentially driven one, in child processes that carry the race detector when
+// the binary was built with -race; a third (kill.go) kills a child inside a call on the real store.
 //
 // Generator regions (decided at generation time, DESIGN §4):
 //
@@ -29,12 +36,15 @@ package c15
 
 import (
 	"context"
+	"errors"
 	"fmt"
 	"os"
 	"path/filepath"
+	"sort"
 	"strings"
 	"sync"
 	"sync/atomic"
+	"time"
 
 	kv "github.com/evstack/ev-node/apps/testapp/kv"
 
@@ -50,23 +60,41 @@ var shapedReported atomic.Int64
 // FindingID is the finding whose trigger region is "SetFinal was called before a root was observed".
 const FindingID = "C15-setfinal-in-root"
 
-// probeFHReserved observes once how this build treats a transaction that writes the key SetFinal
-// uses: refused like the two genesis keys (true) or accepted as an ordinary key (false). The
-// property does not say which; it only requires that the choice is made consistently, which is
-// what every history of region "fhtx" then checks.
-func probeFHReserved(base string) (bool, error) {
-	dir := filepath.Join(base, "probe")
-	ex, err := kv.NewKVExecutor(dir, "p")
+// OldReexecFindingID names the behaviour "an OLDER block offered again after later blocks is applied
+// once more on top of them". Whether the statement's "re-executing a block is harmless" covers it is
+// undecided (the node only ever re-executes its tip block); judgeOldReexec turns it into a finding.
+const OldReexecFindingID = "C15-old-block-reexecution"
+
+const judgeOldReexec = false
+
+var errFreshInit = errors.New("first InitChain")
+
+// newVerdictBook opens the scratch instance on which single transactions are offered alone, once each
+// (probe-and-remember): the statement does not say which transactions beyond the documented format
+// "key=value" are malformed (reserved names, their path aliases, blank keys), it only makes sense if
+// the build gives every transaction string ONE verdict wherever it is offered.
+func newVerdictBook(base string) (*verdictBook, func(), error) {
+	ex, err := kv.NewKVExecutor(filepath.Join(base, "probe"), "p")
 	if err != nil {
-		return false, err
+		return nil, nil, err
 	}
-	defer func() { _ = closeExec(ex) }()
 	ctx := context.Background()
-	if _, _, err := ex.InitChain(ctx, genesisTime, 1, chainID); err != nil {
-		return false, err
+	root, _, err := ex.InitChain(ctx, genesisTime, 1, chainID)
+	if err != nil {
+		_ = closeExec(ex)
+		return nil, nil, fmt.Errorf("%w: %v", errFreshInit, err)
 	}
-	_, _, err = ex.ExecuteTxs(ctx, [][]byte{[]byte("finalizedHeight=7")}, 1, blockTime(0), nil)
-	return err != nil, nil
+	height, prev := uint64(0), root
+	book := &verdictBook{known: map[string]txVerdict{}}
+	book.probe = func(tx string) (bool, string, bool) {
+		r, _, err := ex.ExecuteTxs(ctx, [][]byte{[]byte(tx)}, height+1, blockTime(int(height)), prev)
+		if err != nil {
+			return true, errStr(err), true
+		}
+		height, prev = height+1, r
+		return false, "", true
+	}
+	return book, func() { _ = closeExec(ex) }, nil
 }
 
 func rootsOf(ops []Op, obs []Obs) []string {
@@ -94,7 +122,7 @@ func rootsOf(ops []Op, obs []Obs) []string {
 	return out
 }
 
-func runHistory(r *vk.Run, base string, h History, fhReserved, canClose bool) {
+func runHistory(r *vk.Run, base string, h History, fhReserved, canClose bool, book *verdictBook) {
 	dir := filepath.Join(base, fmt.Sprintf("h%d", h.ID))
 	if err := os.MkdirAll(dir, 0o755); err != nil {
 		r.Inconclusive("mkdir: " + err.Error())
@@ -130,19 +158,30 @@ func runHistory(r *vk.Run, base string, h History, fhReserved, canClose bool) {
 			r.Inconclusive(fmt.Sprintf("history %d: child watchdog", h.ID))
 			return
 		}
-		if strings.Contains(e.Error(), "Cannot acquire directory lock") {
-			// flock contention between processes of the harness itself, not executor behaviour
+		if environmental(e.Error()) {
+			// trouble of the machine or of the harness's own processes (flock contention), not executor behaviour
 			r.Inconclusive(fmt.Sprintf("history %d: %v", h.ID, e))
 			return
 		}
-		// a database that cannot be (re)opened or a child that died: the history cannot continue
+		var cd *childDied
+		if errors.As(e, &cd) {
+			if cd.crashed() {
+				r.Violation("no-crash", fmt.Sprintf("history %d: the process driving an instance crashed: %v", h.ID, e), witness())
+			} else {
+				r.Inconclusive(fmt.Sprintf("history %d: %v", h.ID, e))
+			}
+			return
+		}
+		// the directory cannot be opened again after a restart: no root can be reproduced from it
 		r.Violation("reopen", fmt.Sprintf("history %d: %v", h.ID, e), witness())
 		return
 	}
-	probs := judgeHistory(h, obsA, obsB, fhReserved, r.Hit)
-	var other, shaped []problem
+	probs := judgeHistory(h, obsA, obsB, fhReserved, book, r.Hit, func(n string) { r.Count(n, 1) })
+	var other, shaped, old []problem
 	for _, p := range probs {
-		if p.finding && h.Region != "clean" {
+		if p.finding == OldReexecFindingID {
+			old = append(old, p)
+		} else if p.finding == FindingID && h.Region != "clean" {
 			shaped = append(shaped, p)
 		} else {
 			other = append(other, p)
@@ -171,6 +210,9 @@ func runHistory(r *vk.Run, base string, h History, fhReserved, canClose bool) {
 		}
 		r.Finding(FindingID, shaped[0].clause, fmt.Sprintf("history %d (%d blocks, SetFinal policy %s/%s): %s (%d observations of this shape in the history)", h.ID, len(h.Blocks), h.PolA, h.PolB, shaped[0].detail, len(shaped)), witness())
 	}
+	if len(old) > 0 {
+		r.Finding(OldReexecFindingID, old[0].clause, fmt.Sprintf("history %d: %s (%d observations of this shape in the history)", h.ID, old[0].detail, len(old)), witness())
+	}
 	nops := map[string]int64{}
 	for _, ops := range [][]Op{h.OpsA, h.OpsB} {
 		for _, o := range ops {
@@ -188,26 +230,128 @@ func runHistory(r *vk.Run, base string, h History, fhReserved, canClose bool) {
 // Run is the check entry point.
 func Run(r *vk.Run) {
 	world.Silence()
-	r.Rule = "seeded histories of 5-40 blocks (1-5 'key=value' txs over a 15-key alphabet with path aliases and reserved look-alikes; 18% refused blocks: no '=', empty key, genesis key, always behind state-changing valid txs) executed on two real KVExecutor instances with independently generated call sequences (InitChain placement/repeats, SetFinal policy each|lag2|sparse|late|never|early, InjectTx/GetTxs, reopen, re-execution, refused block offered or not, empty-block observations); regions: clean (no SetFinal, no tx on /finalizedHeight), setfinal (different SetFinal timing), fhtx (txs writing /finalizedHeight); non-trivial = >=1 refused block, reopen or SetFinal; distinct by region + block kinds + call-kind sequence of both instances"
-	r.Assume("roots are compared with an independent model: sorted 'key:value;' concatenation over path-normalised keys, the two genesis keys reserved")
+	r.Rule = "(1) seeded histories of 5-40 blocks (1-5 'key=value' txs over a 15-key alphabet with path aliases, padding and reserved look-alikes; 18% refused blocks: no '=', empty or blank key, genesis key aliases, always behind state-changing valid txs, some in blocks of 63-1025 txs) executed on two real KVExecutor instances with independently generated call sequences (InitChain placement/repeats, SetFinal policy each|lag2|sparse|late|never|early, InjectTx/GetTxs incl. the block's own txs, reopen in process or by child processes, re-execution of the tip block, re-execution of an older block in 1 history of 6, refused block offered or not, empty-block observations); regions: clean (no SetFinal, no tx on /finalizedHeight), setfinal (different SetFinal timing), fhtx (txs writing /finalizedHeight); (2) concurrent cases: one instance executes 8-15 blocks (large refused and large valid ones among them) while other goroutines call SetFinal / InjectTx / GetTxs / InitChain without pause, compared block by block with an instance fed the same blocks alone, in child processes (race detector when built with -race); (3) kill cases: a child process is killed at every write of a call sequence on the real store (before / after the write), a new process reopens, initialises and continues. non-trivial = >=1 refused block, reopen or SetFinal (1); every kind of background call overlapped an execution (2); the cut was reached (3); distinct by region + block kinds + call-kind sequence of both instances, resp. block kinds, resp. cut position"
+	r.Assume("the deciding oracle is relational: the root first seen for a canonical history (ordered txs of all accepted first executions; empty blocks and block boundaries do not count) must be seen again whenever that history recurs; the reference model (sorted 'key:value;' over path-normalised keys) is a second opinion: clause model-agrees / counters model_*_not_judged")
+	r.Assume("malformed = no '=' or nothing before the first '=' (documented format); every other transaction string is held to ONE verdict: offered alone on a scratch instance once, remembered, and compared with every block verdict")
 	r.Assume("restart of this type = new KVExecutor on the same directory; in-process after closing the private Badger handle by reflection (KVExecutor has no Close), and for a sample of histories by successive child processes that exit without closing")
-	r.Assume("process exit, not power loss: Badger's unsynced writes live in the page cache")
+	r.Assume("process exit / process kill, not power loss: Badger's unsynced writes live in the page cache")
 	base := world.TempDir(vk.Root(), "C15-*")
 	defer os.RemoveAll(base)
 
-	fhReserved, err := probeFHReserved(base)
-	if err != nil {
-		r.Violation("startup", "cannot open a fresh KVExecutor: "+err.Error(), map[string]any{"dir": base})
+	n := r.N(300, 10000)
+	min := int64(n / 3)
+	if phase("hist") {
+		r.Require("same-history-same-root", int64(n)*3)
+		r.Require("instances-equal", int64(n)*3)
+		r.Require("equal-despite-setfinal-timing", min)
+		r.Require("equal-despite-mempool", min)
+		r.Require("equal-despite-restarts", min/3)
+		r.Require("malformed-refused", min)
+		r.Require("verdict-consistent", min)
+		r.Require("refused-block-changes-nothing", min)
+		r.Require("root-unaffected-by-re-execution", min/3)
+		r.Require("init-idempotent", int64(n))
+		r.Require("reopen-keeps-root", min/3)
+		r.Require("root-unaffected-by-setfinal", min)
+		r.Require("root-unaffected-by-mempool", min)
+	}
+	if phase("conc") {
+		concurrentPhase(r, base)
+		r.Require("concurrent-equals-sequential", int64(r.N(48, 480))*4)
+		r.Require("concurrent-case-with-overlap", int64(r.N(48, 480))/2)
+	}
+	// the sequential phases gain nothing from the race detector and are several times slower with it: when this
+	// is the -race build and the plain build of the same harness lies next to it (vcheck builds both), they run there
+	if exe := plainSibling(); raceEnabled && exe != "" {
+		r.Note("sequential_phases_ran_in", exe)
+		for _, res := range r.RunShardsExe(exe, "c15-seq", 1, 1, 3*time.Hour, base) {
+			if res.ExitErr != nil {
+				tail := res.Tail
+				if len(tail) > 800 {
+					tail = tail[len(tail)-800:]
+				}
+				r.Inconclusive(fmt.Sprintf("the process running the sequential phases ended abnormally (%v): %s", res.ExitErr, tail))
+			}
+		}
 		return
 	}
-	r.Set("finalizedHeight_tx_treatment_observed", map[bool]string{true: "refused as reserved key", false: "accepted as ordinary key"}[fhReserved])
+	r.Note("sequential_phases_ran_in", "this process")
+	sequentialPhases(r, base)
+}
+
+func init() { vk.Children["c15-seq"] = childSeq }
+
+// childSeq runs the kill and history phases in a child: args = shard nShards tier base.
+func childSeq(args []string) int {
+	world.Silence()
+	if len(args) < 4 {
+		return 2
+	}
+	r := vk.NewChildRun("C15", args[2], Level, os.Stdout)
+	sequentialPhases(r, args[3])
+	r.FlushHits()
+	return 0
+}
+
+// plainSibling returns the path of the harness binary built without -race that vcheck keeps next to the
+// -race one ("vh" next to "vh-race"), if it is at least as recent; "" otherwise.
+func plainSibling() string {
+	self := vk.SelfExe()
+	if !strings.HasSuffix(self, "-race") {
+		return ""
+	}
+	plain := strings.TrimSuffix(self, "-race")
+	ps, err1 := os.Stat(plain)
+	ss, err2 := os.Stat(self)
+	if err1 != nil || err2 != nil || ps.IsDir() || ps.ModTime().Before(ss.ModTime()) {
+		return ""
+	}
+	return plain
+}
+
+// phase: development knob C15_PHASES=hist,conc,kill restricts the run to some phases (default: all three).
+func phase(p string) bool {
+	sel := os.Getenv("C15_PHASES")
+	return sel == "" || strings.Contains(","+sel+",", ","+p+",")
+}
+
+// sequentialPhases runs the kill phase and the two-instance histories.
+func sequentialPhases(r *vk.Run, base string) {
+	book, closeBook, err := newVerdictBook(base)
+	if err != nil {
+		if errors.Is(err, errFreshInit) {
+			r.Violation("init-idempotent", "InitChain on a fresh KVExecutor failed: "+err.Error(), map[string]any{"dir": base})
+		} else {
+			r.Inconclusive("cannot open a KVExecutor on a fresh directory: " + err.Error())
+		}
+		return
+	}
+	defer closeBook()
+	// warm-up of the verdict book with the generator's fixed strings (a cache, not knowledge: every verdict is observed)
+	for _, tx := range badTxs {
+		if !mustRefuse(tx) {
+			book.ask(tx)
+		}
+	}
+	fhReserved := false
+	if v, ok := book.ask("finalizedHeight=7"); ok {
+		fhReserved = v.refused
+	}
+	r.Note("finalizedHeight_tx_treatment_observed", map[bool]string{true: "refused as reserved key", false: "accepted as ordinary key"}[fhReserved])
 	canClose := true
 	if ex, err := kv.NewKVExecutor(base, "closeprobe"); err == nil {
 		if closeExec(ex) != nil {
 			canClose = false
 		}
 	}
-	r.Set("in_process_reopen", canClose)
+	r.Note("in_process_reopen", canClose)
+
+	if phase("kill") {
+		killPhase(r, base)
+	}
+	if !phase("hist") {
+		return
+	}
 
 	g := &gen{rng: r.Rand("histories")}
 	n := r.N(300, 10000)
@@ -215,19 +359,6 @@ func Run(r *vk.Run) {
 	for i := range hs {
 		hs[i] = g.history(i, r.Quick())
 	}
-	min := int64(n / 3)
-	r.Require("model-root", int64(n)*3)
-	r.Require("instances-equal", int64(n)*3)
-	r.Require("equal-despite-setfinal-timing", min)
-	r.Require("equal-despite-mempool", min)
-	r.Require("equal-despite-restarts", min/3)
-	r.Require("malformed-refused", min)
-	r.Require("refused-block-changes-nothing", min)
-	r.Require("reexec-same-root", min/3)
-	r.Require("init-idempotent", int64(n))
-	r.Require("reopen-keeps-root", min/3)
-	r.Require("root-unaffected-by-setfinal", min)
-	r.Require("root-unaffected-by-mempool", min)
 
 	var wg sync.WaitGroup
 	ch := make(chan History)
@@ -236,7 +367,7 @@ func Run(r *vk.Run) {
 		go func() {
 			defer wg.Done()
 			for h := range ch {
-				runHistory(r, base, h, fhReserved, canClose)
+				r.Guard(map[string]any{"history": h.ID}, func() { runHistory(r, base, h, fhReserved, canClose, book) })
 			}
 		}()
 	}
@@ -245,4 +376,15 @@ func Run(r *vk.Run) {
 	}
 	close(ch)
 	wg.Wait()
+	book.mu.Lock()
+	r.Note("transactions_probed_alone", book.probes)
+	refused := []string{}
+	for tx, v := range book.known {
+		if v.refused && len(refused) < 40 {
+			refused = append(refused, fmt.Sprintf("%q", tx))
+		}
+	}
+	book.mu.Unlock()
+	sort.Strings(refused)
+	r.Note("transactions_refused_when_offered_alone", refused)
 }
